@@ -8,6 +8,7 @@ package gtree
 
 import (
 	"bytes"
+	"context"
 	"errors"
 	"fmt"
 	"os"
@@ -15,6 +16,8 @@ import (
 	"sort"
 	"strings"
 	"testing"
+
+	"github.com/fatih/color"
 )
 
 // ---------- enumerated programmatic trees ----------
@@ -465,4 +468,232 @@ func TestReplay_Mkdir(t *testing.T) {
 		}
 	}
 	t.Logf("REPLAY-OK mkdir: %d (tree, extensions) cases", n)
+}
+
+// ---------- second round: the production (iterator) route, dry run, reader failures, the massive mode ----------
+
+// replayCountKinds: directories and files of a model tree by the rule Mkdir uses (childless and a configured suffix).
+func replayCountKinds(n *replayModelNode, ext []string) (dirs, files int) {
+	isFile := false
+	if len(n.kids) == 0 {
+		for _, e := range ext {
+			if strings.HasSuffix(n.name, e) {
+				isFile = true
+			}
+		}
+	}
+	if isFile {
+		files++
+	} else {
+		dirs++
+	}
+	for _, k := range n.kids {
+		d, f := replayCountKinds(k, ext)
+		dirs, files = dirs+d, files+f
+	}
+	return
+}
+
+// replayDocsNamed is replayDocs over a caller-chosen name alphabet.
+func replayDocsNamed(maxLines int, names []string, f func(lines []replayLine)) {
+	var rec func(cur []replayLine)
+	rec = func(cur []replayLine) {
+		f(cur)
+		if len(cur) == maxLines {
+			return
+		}
+		for d := 0; d <= 2; d++ {
+			for _, n := range names {
+				rec(append(append([]replayLine(nil), cur...), replayLine{d, n}))
+			}
+		}
+	}
+	for _, n := range names {
+		rec([]replayLine{{0, n}})
+	}
+}
+
+// TestReplay_DryRunReport: the dry-run report (both routes of the simple mode, and the massive mode per root) is, per root,
+// the plain tree text followed by the counts a real Mkdir with the same extensions would create.
+func TestReplay_DryRunReport(t *testing.T) {
+	color.NoColor = true
+	ext := []string{".go"}
+	f := replayFormats[0]
+	n := 0
+	replayDocsNamed(5, []string{"a", "b.go"}, func(lines []replayLine) {
+		model, ok := replayModel(lines)
+		if !ok {
+			return
+		}
+		n++
+		doc := replaySpell(lines, "  ", "-")
+		var want strings.Builder
+		var blocks []string
+		for _, r := range model {
+			var b strings.Builder
+			replayModelRender(r, "", true, false, f, &b)
+			d, fl := replayCountKinds(r, ext)
+			fmt.Fprintf(&b, "\n%d directories, %d files\n", d, fl)
+			want.WriteString(b.String())
+			blocks = append(blocks, b.String())
+		}
+		for i, opts := range [][]Option{{WithDryRun(), WithFileExtensions(ext)}, {WithDryRun(), WithFileExtensions(ext), WithNoUseIterOfSimpleOutput()}} {
+			var buf bytes.Buffer
+			if err := OutputFromMarkdown(&buf, strings.NewReader(doc), opts...); err != nil || buf.String() != want.String() {
+				name := "gtree.colorizeSpreaderSimple.spreadIter#1/loop#1/inv-keep#sofar"
+				if i == 1 {
+					name = "gtree.colorizeSpreaderSimple.spread/post#report"
+				}
+				t.Fatalf("REPLAY-FAIL %s input: dry run of document %q (extensions %v): err=%v\ngot:\n%swant:\n%s", name, doc, ext, err, buf.String(), want.String())
+			}
+		}
+		if len(lines) <= 4 {
+			// massive mode: the same blocks in any order
+			var buf bytes.Buffer
+			err := OutputFromMarkdown(&buf, strings.NewReader(doc), WithDryRun(), WithFileExtensions(ext), WithMassive(context.Background()))
+			got := buf.String()
+			rest := got
+			for _, b := range blocks {
+				i := strings.Index(rest, b)
+				if i < 0 {
+					rest = "\x00"
+					break
+				}
+				rest = rest[:i] + rest[i+len(b):]
+			}
+			if err != nil || rest != "" {
+				t.Fatalf("REPLAY-FAIL gtree.colorizeSpreaderPipeline.spread#1/loop#1/inv-keep#sofar input: massive dry run of document %q: err=%v\ngot:\n%swant the blocks (any order):\n%s", doc, err, got, want.String())
+			}
+		}
+	})
+	t.Logf("REPLAY-OK dry-run report: %d documents", n)
+}
+
+type replayFailReader struct {
+	data []byte
+	pos  int
+	err  error
+}
+
+func (r *replayFailReader) Read(p []byte) (int, error) {
+	if r.pos >= len(r.data) {
+		return 0, r.err
+	}
+	n := copy(p, r.data[r.pos:])
+	r.pos += n
+	return n, nil
+}
+
+// TestReplay_ReaderFailure: a reader that fails after k complete lines: every From-Markdown route returns that error.
+func TestReplay_ReaderFailure(t *testing.T) {
+	boom := errors.New("reader broke")
+	doc := "- a\n  - b\n- c\n  - d\n    - e\n"
+	lines := strings.SplitAfter(doc, "\n")
+	for k := 0; k <= len(lines)-1; k++ {
+		prefix := strings.Join(lines[:k], "")
+		routes := []struct {
+			name string
+			run  func() error
+		}{
+			{"gtree.rootGeneratorSimple.generateIter#1/yield#rootStream/readerr", func() error {
+				return OutputFromMarkdown(&bytes.Buffer{}, &replayFailReader{data: []byte(prefix), err: boom})
+			}},
+			{"gtree.rootGeneratorSimple.generate/post#readerr2", func() error {
+				return OutputFromMarkdown(&bytes.Buffer{}, &replayFailReader{data: []byte(prefix), err: boom}, WithNoUseIterOfSimpleOutput())
+			}},
+			{"gtree.rootGeneratorSimple.generateIter#1/yield#rootStream/readerr (JSON)", func() error {
+				return OutputFromMarkdown(&bytes.Buffer{}, &replayFailReader{data: []byte(prefix), err: boom}, WithEncodeJSON())
+			}},
+			{"gtree.rootGeneratorSimple.generate/post#readerr2 (walk)", func() error {
+				return WalkFromMarkdown(&replayFailReader{data: []byte(prefix), err: boom}, func(*WalkerNode) error { return nil })
+			}},
+		}
+		for _, r := range routes {
+			if err := r.run(); !errors.Is(err, boom) {
+				t.Fatalf("REPLAY-FAIL %s input: reader failing after %d complete lines of %q: returned %v", r.name, k, doc, err)
+			}
+		}
+	}
+	t.Logf("REPLAY-OK reader failures")
+}
+
+// TestReplay_LinesRepresented: when nil is returned every non-blank line is a node of the output (iterator route, JSON,
+// blank lines anywhere); a line the model rejects is reported.
+func TestReplay_LinesRepresented(t *testing.T) {
+	n := 0
+	replayDocs(4, func(lines []replayLine) {
+		for _, l := range lines {
+			if l.depth > 0 {
+				if l.depth != 1 {
+					return
+				}
+				break
+			}
+		}
+		model, ok := replayModel(lines)
+		if !ok {
+			return
+		}
+		// blank lines after every position
+		for blankAt := 0; blankAt <= len(lines); blankAt++ {
+			n++
+			var sb strings.Builder
+			for i, l := range lines {
+				if i == blankAt {
+					sb.WriteString("  \n")
+				}
+				sb.WriteString(strings.Repeat("  ", l.depth) + "- " + l.name + "\n")
+			}
+			if blankAt == len(lines) {
+				sb.WriteString("\n")
+			}
+			var want strings.Builder
+			for _, r := range model {
+				replayModelRender(r, "", true, false, replayFormats[0], &want)
+			}
+			var buf bytes.Buffer
+			if err := OutputFromMarkdown(&buf, strings.NewReader(sb.String())); err != nil || buf.String() != want.String() {
+				t.Fatalf("REPLAY-FAIL gtree.rootGeneratorSimple.generateIter#1/loop#1/inv-keep#lines input: document %q: err=%v\ngot:\n%swant:\n%s", sb.String(), err, buf.String(), want.String())
+			}
+		}
+	})
+	t.Logf("REPLAY-OK lines represented: %d documents with blank lines", n)
+}
+
+// TestReplay_Massive: the massive mode neither crashes nor swallows errors on the inputs that did so once; single-root
+// results equal the simple mode's.
+func TestReplay_Massive(t *testing.T) {
+	ctx := context.Background()
+	for _, in := range []string{"", "\n", "  \n\n", "\n- a\n  - b\n", "- a\n\n  - b\n"} {
+		var simple, massive bytes.Buffer
+		errS := OutputFromMarkdown(&simple, strings.NewReader(in))
+		errM := OutputFromMarkdown(&massive, strings.NewReader(in), WithMassive(ctx))
+		if (errS == nil) != (errM == nil) || (errS == nil && simple.String() != massive.String()) {
+			t.Fatalf("REPLAY-FAIL gtree.rootGeneratorPipeline.worker/send#rootChan/nonnil input: document %q: simple err=%v out=%q, massive err=%v out=%q", in, errS, simple.String(), errM, massive.String())
+		}
+	}
+	doc := "- a\n  - b\n- c\n"
+	for name, opts := range map[string][]Option{
+		"gtree.defaultSpreaderPipeline.worker/post#reported":                         {WithMassive(ctx)},
+		"gtree.colorizeSpreaderPipeline.spread#1/loop#1/inv-keep#reported":           {WithMassive(ctx), WithDryRun()},
+		"gtree.formattedSpreaderPipeline.spread[jsonNode]#1/loop#1/inv-keep#reported": {WithMassive(ctx), WithEncodeJSON()},
+	} {
+		if err := OutputFromMarkdown(&replayFailWriter{okWrites: 0}, strings.NewReader(doc), opts...); err == nil {
+			t.Fatalf("REPLAY-FAIL %s input: writer refusing every write, document %q, massive mode: returned nil", name, doc)
+		}
+	}
+	for _, bad := range []string{"..", "x/y"} {
+		jail := t.TempDir()
+		target := filepath.Join(jail, "target")
+		os.Mkdir(target, 0o755)
+		r := NewRoot("a")
+		r.Add(bad).Add("z")
+		if err := MkdirFromRoot(r, WithTargetDir(target), WithMassive(ctx)); err == nil || len(replaySnapshot(jail)) != 1 {
+			t.Fatalf("REPLAY-FAIL gtree.treePipeline.mkdirProgrammably/call#gtree.defaultMkdirerPipeline.mkdir/pre#validating input: massive MkdirFromRoot, child named %q: err=%v created=%v", bad, err, replaySnapshot(jail))
+		}
+		if err := MkdirFromMarkdown(strings.NewReader("- "+bad+"\n"), WithTargetDir(target), WithMassive(ctx)); bad == "x/y" && (err == nil || len(replaySnapshot(jail)) != 1) {
+			t.Fatalf("REPLAY-FAIL gtree.defaultGrowerPipeline.worker/send#grownChan/valid input: massive MkdirFromMarkdown, root named %q: err=%v created=%v", bad, err, replaySnapshot(jail))
+		}
+	}
+	t.Logf("REPLAY-OK massive mode")
 }
